@@ -15,6 +15,15 @@ HEADER = "pipeline_id,arrival_seconds,priority,operator_id,parents,baseline_cpu_
 TPS_GRID = [1, 10, 100, 1000, 10**4, 10**5, 3, 7, 60, 25, 30]
 
 
+def limbs(n: int):
+    """A natural number as little-endian base-10^4 limbs (spec/BigNat.tla)."""
+    out = []
+    while n:
+        out.append(n % 10000)
+        n //= 10000
+    return out
+
+
 def dec_str(x: F, places: int) -> str:
     """x as a plain decimal string with at most `places` digits after the point (x must be representable or is rounded)."""
     q = Decimal(x.numerator) / Decimal(x.denominator)
@@ -52,8 +61,18 @@ def make_case(rng: random.Random):
         else:
             a = max(F(0), F(k, tps) - F(1, 10**6))     # a hair below a boundary
         arr.append(a)
+    places = 6
+    if rng.random() < 0.25:
+        # two consecutive arrivals a few parts in 10^10 apart, straddling a tick boundary, at a large time (they are different arrival times)
+        places = 9
+        big = rng.choice([10**5, 10**6]) if tps <= 1000 else 10**4
+        kk = rng.randint(big * tps // 2, big * tps)
+        eps = F(rng.choice([2, 4, 7]), 10**4) if big >= 10**5 else F(rng.choice([2, 5]), 10**6)
+        arr = [F(kk, tps) - eps, F(kk, tps) + eps] + ([F(kk + 3, tps)] if rng.random() < 0.5 else [])
+        arr = [a for a in arr if a >= 0]
+        k, t0 = kk + 3, kk - 3
     arr.sort()
-    strs = [dec_str(a, 6) for a in arr]
+    strs = [dec_str(a, places) for a in arr]
     maxticks = (k - t0) + rng.choice([-3, 0, 1, 5]) + 1 if rng.random() < 0.5 else (k - t0) + 10
     return {"tps": tps, "arrivals": strs, "t0": max(0, t0 - 2), "window": max(1, maxticks + 2)}
 
@@ -87,12 +106,12 @@ def run_case(case, tid):
         d = Decimal(a)
         fr = F(d)
         T = math.ceil(fr * tps)
-        rows.append({"id": i + 1, "num": fr.numerator, "den": fr.denominator, "cert": T, "text": a})
+        rows.append({"id": i + 1, "num": limbs(fr.numerator), "den": limbs(fr.denominator), "cert": T, "text": a})
         # data for the known-findings matcher only (never for the verdict): how the IEEE expression of the reader evaluates
         fl = float(a) / (1.0 / tps)
         late = deliv[i] - T if deliv[i] >= 0 else (1 if T == end - 1 else -99)     # due in the last observed tick: one tick late is outside the window
         sig.append([late, 1 if fl > T else 0])
-    assert all(r["num"] < 2**31 and r["den"] < 2**31 for r in rows)
+    assert all(r["cert"] < 2**31 for r in rows)
     return {"kind": "replay", "tid": tid, "tps": tps, "maxticks": end, "start": start,
             "rows": [{"id": r["id"], "num": r["num"], "den": r["den"], "cert": r["cert"]} for r in rows],
             "deliv": deliv, "count": count, "pos": pos, "sig": sig, "texts": strs}
@@ -138,7 +157,9 @@ def roundtrip_case(seed, tid):
     for i in range(len(gen_ticks)):
         late = (replay[i] - gen_ticks[i]) if i < len(replay) else -99
         fl = written[i] / (1.0 / tps) if i < len(written) else 0.0
-        sig.append([late, 1 if fl > gen_ticks[i] else 0])
+        # ... and whether the file holds exactly the float the pinned writer's expression tick * (1.0 / tps) gives (part of D8's signature)
+        wexpr = 1 if i < len(written) and written[i] == gen_ticks[i] * (1.0 / tps) else 0
+        sig.append([late, 1 if fl > gen_ticks[i] else 0, wexpr])
     # pipelines generated in the last ticks may fall beyond the replayed window: compare only what both saw
     return {"kind": "roundtrip", "tid": tid, "tps": tps, "gen": gen_ticks[:n] if len(replay) >= len(gen_ticks) else gen_ticks,
             "replay": replay[:len(gen_ticks)], "sig": sig, "seed": seed}
